@@ -137,7 +137,8 @@ class WorldC16(World):
                 break
         fs = sw.get('feed_scale', 1.0)
         if fs != 1.0:
-            feed = {k: v * fs for k, v in feed.items()}       # "any non-negative amounts": micromoles to kilomoles
+            # "any non-negative amounts": micromoles to kilomoles, and not only round numbers
+            feed = {k: v * fs * (1.2345678912345 if rng.random() < 0.5 else 1.0) for k, v in feed.items()}
         return species, feed
 
     def _span(self, species, T):
